@@ -47,7 +47,7 @@ class World:
     def __init__(self, spec, chan):
         self.spec = spec
         self.chan = chan
-        self.clock = seams.SimClock()
+        self.clock = seams.SimClock(spec.get("knobs", {}).get("clock_jumps"))
         self.events = []
         self.seq = 0
         self.probes = Counter()
@@ -255,6 +255,9 @@ def run_api(world, spec):
                                       % (h._idx, h._req, st)})
             for h in live:  # so that the next request's check is about the next request
                 h._abandoned = True
+        for h in world.helpers[h0:]:
+            if h.orphan_alive():  # not judged (it is the user's process, not the helper); counted
+                world.probe("descendant-left-running")
         if vt > LATE_BASE_S + LATE_PER_HELPER_S * max(nh, 1):
             checks.append({"class": "late",
                            "message": "compile_code took %.1f virtual seconds with %d helper invocations" % (vt, nh)})
@@ -428,6 +431,9 @@ def execute(spec, send, recv):
         out["fd2_tail"] = _fd_read(fds[2], 2000).decode("utf-8", "replace")
     out["events"] = world.events
     out["probes"] = dict(world.probes)
+    out["faults"] = dict(world.faults)
+    if world.clock.jumped:
+        world.faults["clock_jump"] += world.clock.jumped
     out["faults"] = dict(world.faults)
     out["vtime"] = round(world.clock.now, 6)
     out["steps"] = world.steps.n
